@@ -19,6 +19,7 @@ PROPS["C06"] = {
         ],
     },
     "assumptions": [
+        "server jobs run a whole statsd.Server in process on the real clock (100 ms flush interval) over loopback UDP; a case whose datagrams did not all arrive (only whole series missing, everything present correct) is excluded and counted, never judged; the own-socket job judges a deficit only when the kernel's drop counter for the port (/proc/net/udp) did not move",
         "series identity = (type, name, tag multiset, source); tags that contain ',' or start with 's:' are excluded because two identities then render to one map key (documented exclusion)",
     ],
 }
@@ -62,6 +63,7 @@ PROPS["C02"] = {
         ],
     },
     "assumptions": [
+        "server jobs run a whole statsd.Server in process on the real clock (100 ms flush interval) over loopback UDP; a case whose datagrams did not all arrive (only whole series missing, everything present correct) is excluded and counted, never judged; the own-socket job judges a deficit only when the kernel's drop counter for the port (/proc/net/udp) did not move",
         "strconv.ParseFloat (error == nil) is the definition of a parsable number",
         "documented grammar is silent, hence excluded: names starting with '_' other than '_e{', empty attribute fields (the lexer then treats the following field as unknown), event attribute values containing '|', event header numbers of more than 19 digits",
     ],
@@ -93,6 +95,7 @@ PROPS["C03"] = {
         ],
     },
     "assumptions": [
+        "binary jobs run the gostatsd command built from the working tree on the real clock over loopback UDP with the stdout backend; a command that never serves (its port was taken between probe and start) or a datagram that does not arrive excludes the case (counted in the evidence) and is never a violation; a command that exits after it had served is judged (a crash)",
         "'each line is either parsed or counted as a bad line' is read as: parser.metrics_received + parser.events_received + parser.bad_lines_seen increases by the number of newline-separated segments (an empty segment in the middle counts as a bad line; the empty remainder after a trailing newline is not a segment)",
         "a wedge is reported only after 60 s (datagram) / 45 s (HTTP) without completion of an operation that normally takes microseconds",
         "the UDP socket read loop (receiver.go) is exercised by the udp job (one reader, loopback, datagrams sent one at a time so that none is dropped by the kernel); the other datagram jobs inject at the parser's input channel",
@@ -114,6 +117,7 @@ PROPS["C08"] = {
         ],
     },
     "assumptions": [
+        "binary jobs run the gostatsd command built from the working tree on the real clock over loopback UDP with the stdout backend; a command that never serves (its port was taken between probe and start) or a datagram that does not arrive excludes the case (counted in the evidence) and is never a violation; a command that exits after it had served is judged (a crash)",
         "floating-point tolerance |got-want| <= 1e-9 * (sum of |v| resp. sum of v^2) + 1e-300 for sums, means and percentile sums (the code forms upper-tail sums by subtraction); min, max, median and boundaries exact",
         "k = round(|p|*n/100) evaluated in integers; at exact .5 ties (|p|*n mod 100 == 50) with |p| not in {25, 50, 75, 100} both neighbours are accepted (the code rounds a floating-point product)",
         "count = round(sum 1/rate): when the sum is within 1e-9 of a .5 tie either neighbour is accepted (floating-point addition order)",
@@ -131,6 +135,7 @@ PROPS["C09"] = {
                      {"name": "binary", "run": "^TestBinary", "checks": 1600, "shards": 16, "binary": True, "shrinktime": "1s", "timeout": 1700}],
     },
     "assumptions": [
+        "binary jobs run the gostatsd command built from the working tree on the real clock over loopback UDP with the stdout backend; a command that never serves (its port was taken between probe and start) or a datagram that does not arrive excludes the case (counted in the evidence) and is never a violation; a command that exits after it had served is judged (a crash)",
         "a datapoint's timestamp is the (injected) clock reading when it is received, as in production where both come from the wall clock",
         "Flush, Process and Reset of one flush happen at one clock reading",
         "equal-timestamp gauge datapoints: any of the tied values is accepted",
@@ -147,6 +152,7 @@ PROPS["C04"] = {
                      {"name": "binary", "run": "^TestBinaryFlushSurvivesConfiguration$", "checks": 3200, "shards": 16, "binary": True, "shrinktime": "1s", "timeout": 1700}],
     },
     "assumptions": [
+        "binary jobs run the gostatsd command built from the working tree on the real clock over loopback UDP with the stdout backend; a command that never serves (its port was taken between probe and start) or a datagram that does not arrive excludes the case (counted in the evidence) and is never a violation; a command that exits after it had served is judged (a crash)",
         "HTTP transports answer 2xx at once and socket listeners accept and read everything (transport faults are C16's subject)",
         "a panic on a goroutine the backend spawns kills the test binary; the case is journaled before every flush and the driver reports the journaled case",
         "the AWS SDK is pinned offline by environment (static credentials, IMDS disabled, one attempt)",
@@ -164,6 +170,7 @@ PROPS["C05"] = {
                      {"name": "binary", "run": "^TestBinaryIgnoreHost$", "checks": 3200, "shards": 16, "binary": True, "shrinktime": "1s", "timeout": 1700}],
     },
     "assumptions": [
+        "binary jobs run the gostatsd command built from the working tree on the real clock over loopback UDP with the stdout backend; a command that never serves (its port was taken between probe and start) or a datagram that does not arrive excludes the case (counted in the evidence) and is never a violation; a command that exits after it had served is judged (a crash)",
         "an empty line between two newlines counts as a rejected line (it is lexed and rejected); the empty remainder after a trailing newline is not a line",
         "an event without d: gets the wall-clock second of parsing: compared with a tolerance of 5 s",
         "equal-timestamp gauge lines in one datagram: the later line must win (stated by the property)",
@@ -207,6 +214,7 @@ PROPS["C18"] = {
         ],
     },
     "assumptions": [
+        "binary jobs run the gostatsd command built from the working tree on the real clock over loopback UDP with the stdout backend; a command that never serves (its port was taken between probe and start) or a datagram that does not arrive excludes the case (counted in the evidence) and is never a violation; a command that exits after it had served is judged (a crash)",
         "'multiple of the interval' is counted from Go's zero time, as time.Truncate documents; the oracle recomputes it with big integers",
         "the property is about the arithmetic of tick values and of the clock reading under exact stepping; real-time scheduling jitter is out of scope (a real ticker fires microseconds after the boundary and the tick value is rounded down to it)",
         "under jumps and late consumers ticks may be dropped (non-blocking send): alignment and strict increase are still required, 'clock reads exactly the tick value' only under exact stepping",
@@ -252,6 +260,7 @@ PROPS["C01"] = {
         ],
     },
     "assumptions": [
+        "server jobs run a whole statsd.Server in process on the real clock (100 ms flush interval) over loopback UDP; a case whose datagrams did not all arrive (only whole series missing, everything present correct) is excluded and counted, never judged; the own-socket job judges a deficit only when the kernel's drop counter for the port (/proc/net/udp) did not move",
         "the Go scheduler is not owned: the concurrent layer samples interleavings (diversified by GOMAXPROCS, queue size 0, feeder/flush concurrency, a Gosched inside the aggregator wrapper); the oracle is schedule independent (totals after a deterministic join)",
         "expiry intervals are 0 so that no series disappears during a run (C09 covers expiry)",
         "gauges are excluded from the sum oracle (level semantics; C05/C07 cover them) but must be reported and not invented",
@@ -270,6 +279,7 @@ PROPS["C11"] = {
         ],
     },
     "assumptions": [
+        "server jobs run a whole statsd.Server in process on the real clock (100 ms flush interval) over loopback UDP; a case whose datagrams did not all arrive (only whole series missing, everything present correct) is excluded and counted, never judged; the own-socket job judges a deficit only when the kernel's drop counter for the port (/proc/net/udp) did not move",
         "the cache contract: an answer on InfoSource follows a request on IpSink (completions are only generated for sources the stage actually requested)",
         "deliveries after a completion happen on goroutines the stage spawns: the harness waits for the expected number of deliveries (progress wait; only 'never delivered within 30 s' is reported)",
         "stats emission is fire-and-forget in the stage: the harness re-triggers it until it lands (progress only)",
@@ -409,6 +419,7 @@ PROPS["C19"] = {
         ],
     },
     "assumptions": [
+        "server jobs run a whole statsd.Server in process on the real clock (100 ms flush interval) over loopback UDP; a case whose datagrams did not all arrive (only whole series missing, everything present correct) is excluded and counted, never judged; the own-socket job judges a deficit only when the kernel's drop counter for the port (/proc/net/udp) did not move",
         "an event without d: gets the wall-clock second of receipt: accepted within [start-1, end+1] of the case",
         "events posted to /v2/event carry a non-zero time (the only documented client, gostatsd's forwarder, always sets it)",
         "a premature WaitForEvents return is detected by observing a return within 15 ms while the backends are still gated: a correct implementation blocks, so the wait cannot produce a false alarm",
